@@ -579,10 +579,12 @@ def strat_stream():
 
 def units(tier):
     return [
-        Unit('parse', 'enum', shards=2, gen=gen_parse, exhaustive=True),
-        Unit('tables', 'bulk', shards=16, run=run_tables, exhaustive=True),
-        Unit('small-streams', 'bulk', shards=16, run=run_small, exhaustive=True),
-        Unit('streams', 'hyp', shards={'quick': 8, 'thorough': 16}, examples={'quick': 1500, 'thorough': 125000},
+        Unit('parse', 'enum', shards=1, gen=gen_parse, exhaustive=True),
+        Unit('tables', 'bulk', shards={'quick': 8, 'thorough': 16}, run=run_tables, exhaustive=True),
+        Unit('small-streams', 'bulk', shards={'quick': 8, 'thorough': 16}, run=run_small,
+             exhaustive=True),
+        Unit('streams', 'hyp', shards={'quick': 8, 'thorough': 16},
+             examples={'quick': 1500, 'thorough': 125000},
              strategy=strat_stream),
     ]
 
